@@ -33,6 +33,10 @@ pub fn dispatch(op: &str, req: &Value) -> Result<Value, String> {
     if let Some(k) = op.strip_prefix("c09:") {
         return crate::ops_stateres::c08(k, req);
     }
+    #[cfg(feature = "signatures")]
+    if let Some(k) = op.strip_prefix("c05:") {
+        return crate::ops_signatures::c05(k, req);
+    }
     #[cfg(feature = "common")]
     if op == "c17:content_disposition" {
         let b = crate::arg_bytes(req, "s")?;
